@@ -7,7 +7,7 @@ from tableschema import Field
 
 PROP = 'C03'
 PROPS_V = 'Props/C03.v'
-COQ_IMPORTS = ['IO.RowCells', 'Base.Str', 'Base.Value', 'IO.Csv', 'IO.EJson', 'IO.JsonText']
+COQ_IMPORTS = ['IO.RowCells', 'Base.Str', 'Base.Value', 'IO.Csv', 'IO.EJson', 'IO.JsonText', 'IO.SortKeys']
 RULE = ('cases = tables over string/integer/number/boolean/date/time/datetime/year/array/object fields (nulls, negatives, '
         'high-precision decimals, quotes, delimiters, newlines, non-BMP unicode; temporal values at second precision; no '
         'bare CR) x csv/json x dump_to_path/dump_to_zip x add_filehash_to_path x temporal_format_property x 1-3 resources x '
@@ -510,7 +510,8 @@ def coq_term(case, out):
         return '(%s)' % rd
     if case['format'] == 'json' and 'files' in out and not case.get('big'):
         # the JSON file format: the text model writes the file byte for byte and reads it back as the json module does
-        # (files holding binary floats are outside the text model)
+        # (files holding binary floats are outside the text model); the rows go through the model's key sorting first, so a
+        # file whose members are not in key order is a disagreement
         desc = json.loads(out['files']['datapackage.json'])
         terms = []
         for d in desc['resources']:
@@ -522,7 +523,7 @@ def coq_term(case, out):
             if any(r is None for r in rows):
                 continue
             rs = clist(rows)
-            terms.append('(str_eqb (json_file %s) %s && match jparse %s with Some j => json_eqb j (JArr %s) | None => false end)' % (
+            terms.append('(str_eqb (json_file (map jsort %s)) %s && match jparse %s with Some j => json_eqb j (JArr %s) | None => false end)' % (
                 rs, cstr(text), cstr(text), rs))
         return ' && '.join(terms) if terms else None
     if case['format'] != 'csv' or 'files' not in out or case.get('big'):
